@@ -102,8 +102,8 @@ C08_Families ==
   /\ Is("Negotiated") => FamSet(Obs.fams) = Fams /\ Obs.otherfams = 0
   /\ Is("Export") => FamSet(Obs.fams) \subseteq Fams /\ Obs.otherfams = 0
 
-(* ... and every route of a negotiated family is emitted (1101 IPv4 routes, 1 of the others) *)
-Injected(f) == IF f = "v4" THEN 1101 ELSE 1
+(* ... and every route of a negotiated family is emitted (1 per family, 1100 more IPv4 ones when cfg.bulk) *)
+Injected(f) == IF f = "v4" /\ cfg.bulk THEN 1101 ELSE 1
 C08_Emitted == Is("Export") => /\ Obs.bad = 0
                                /\ \A f \in Fams : f \in FamSet(Obs.fams) /\ Entry(Obs.fams, f).n = Injected(f)
 
